@@ -159,6 +159,14 @@ class C03(PureCheck):
                         yield {"op": "pipe", "items": [list(x) for x in items], "enc": enc, "pieces": [1]}
                         if len(items) == 2:
                             yield {"op": "pipe", "items": [list(x) for x in items], "enc": enc, "pieces": [1], "ctx": 1}
+        # line ends as data: CR LF, LF CR, CR CR LF, CR alone - in one read, behind a key, handed over by unget_bytes - and
+        # sequences shaped like a terminal's cursor-position report (xterm's modified F3 is ESC [ 1 ; 2 R) among other keys
+        for enc in encs:
+            for items in ([b"\r", b"\n"], [b"a", b"\r", b"\n", b"b"], [b"\n", b"\r"], [b"\r", b"\r", b"\n"], [b"\x1b[15~", b"\r", b"\n"], [b"\r"],
+                          [b"x", b"\r", b"\n", b"y", b"\r", b"\n"]):
+                yield {"op": "pipe", "items": [list(x) for x in items], "enc": enc}
+                yield {"op": "pipe", "items": [list(x) for x in items], "enc": enc, "pieces": [len(items)]}
+                yield {"op": "pipe", "items": [list(x) for x in items], "enc": enc, "pieces": [1, 2]}
         # control bytes as data (the interrupt, quit, suspend, stop / start and end-of-file characters of a tty arrive as plain
         # bytes when the terminal is in raw mode or the bytes come through unget_bytes) - with every Input option that
         # concerns them: sigint_event on and off
